@@ -192,7 +192,7 @@ def wrapScript (k : WrapKind) (detail : Bool) : List POp × Bool × Bool :=
   | .withContext tags kinds _ =>
     (det ([POp.safe [lit' "tags: ["]] ++
       (tags.zipIdx.flatMap (fun (x : (Str × Str) × Nat) =>
-        (if x.2 > 0 then [POp.safe [lit' ","]] else []) ++ [POp.safe [.pre (tagRStr x.1 (kinds.getD x.2 0))]])) ++
+        (if x.2 > 0 then [POp.safe [lit' ","]] else []) ++ [POp.safe [.preT (tagToks x.1 (kinds.getD x.2 0))]])) ++
       [POp.safe [lit' "]"]]), false, true)
   | .withAssertionFailure => (det [.safe [lit' "assertion failure"]], false, true)
   | .withSafeDetails l =>
@@ -350,6 +350,21 @@ def simpleWrapOps (eText cText : Str) : List POp × Bool :=
   let pm := extractPrefix eText cText
   ((if pm.1 ≠ [] then [POp.plain pm.1] else []), pm.2 = mtFull)
 
+/-- what a wrapper layer prints: its own SafeFormatError / FormatError method (library
+    types), a special case (os.SyscallError, PathError, LinkError), or formatSimple (the
+    prefix extracted from the two Error() texts).  (operations, elide the inner messages,
+    is the buffer redactable) -/
+def wrapOpsOf (k : WrapKind) (detail : Bool) (ct : Str) : List POp × Bool × Bool :=
+  match k with
+  | .syscallError scn => ([.safe [.lit scn]], false, true)
+  | .pathError op path => ([.safe [.lit op, .lit sp, .arg path]], false, true)
+  | .linkError op old new => ([.safe [.lit op, .lit sp, .arg old, .lit sp, .arg new]], false, true)
+  | .pkgWithMessage _ => ((simpleWrapOps (wrapText k ct) ct).1, (simpleWrapOps (wrapText k ct) ct).2, false)
+  | .pkgWithStack _ => ((simpleWrapOps (wrapText k ct) ct).1, (simpleWrapOps (wrapText k ct) ct).2, false)
+  | .fmtWrapError _ => ((simpleWrapOps (wrapText k ct) ct).1, (simpleWrapOps (wrapText k ct) ct).2, false)
+  | .user .. => ((simpleWrapOps (wrapText k ct) ct).1, (simpleWrapOps (wrapText k ct) ct).2, false)
+  | _ => wrapScript k detail
+
 /-- attach the stack of a StackTraceProvider layer -/
 def withStackOf (en : Entry) (ls : Stack) (st : Option Stack) : Entry × Stack :=
   match st with
@@ -396,7 +411,7 @@ def ents (red detail : Bool) : Err → (outer withDepth : Bool) → (depth : Nat
       | .pkgFundamental msg st =>
         if !outer then
           -- (*fundamental).Format(s, 'v'): the message, and with %+v its own stack, frame by frame
-          let ops := [POp.plain msg] ++ (if detail then st.flatMap (fun f => POp.plain nlS :: (frameWrites f).map POp.plain) else [])
+          let ops := (msg :: (if detail then st.flatMap (fun f => nlS :: frameWrites f) else [])).map POp.plain
           ([collect (runOps detail ops) false red wd depth e.ty.tstr], st)
         else
           let en := collect (runOps detail [.plain msg]) false red wd depth e.ty.tstr
@@ -415,18 +430,7 @@ def ents (red detail : Bool) : Err → (outer withDepth : Bool) → (depth : Nat
   | .wrap id k c, _, wd, depth, ls =>
     let e := Err.wrap id k c
     let sub := ents red detail c false wd (depth + 1) ls
-    let sc := wrapScript k detail
-    let isFormatter : Bool := match k with
-      | .pkgWithMessage _ | .pkgWithStack _ | .pathError .. | .linkError .. | .syscallError _ | .fmtWrapError _ | .user .. => false
-      | _ => true
-    let ct := errText c
-    let res : List POp × Bool × Bool :=
-      if isFormatter then sc
-      else match k with
-        | .syscallError scn => ([.safe [.lit scn]], false, true)
-        | .pathError op path => ([.safe [.lit op, .lit sp, .arg path]], false, true)
-        | .linkError op old new => ([.safe [.lit op, .lit sp, .arg old, .lit sp, .arg new]], false, true)
-        | _ => let so := simpleWrapOps (wrapText k ct) ct; (so.1, so.2, false)
+    let res := wrapOpsOf k detail (errText c)
     let en := collect (runOps detail res.1) res.2.2 red wd depth e.ty.tstr
     let st : Option Stack := match k with
       | .withStack s => some s
